@@ -388,6 +388,14 @@ def binop(I, fr, op, l, r, node):
     else:
         origin = fresh_tok(I, fr, node)
     pwnote = locals().get("pw")
+    rel = None
+    if isinstance(op, ast.Div) and lscalar and rscalar and const_num(l) == 1 and r.sign in (S_POS, S_NONNEG):
+        base = r.rel or ((r.sym, 1, "eq", None) if r.sym is not None else None)
+        if base is not None:
+            rel = (base[0], -base[1], {"eq": "eq", "ge": "le", "le": "ge", None: None}[base[2]],
+                   {"int": "recip-int", "recip-int": "int", None: None}[base[3]])
+    if fr is not None and fr.fi.qualname in getattr(I, "watch_arith", ()) and isinstance(op, (ast.Div, ast.Mult)):
+        I.emit("arith", fr, node, op=type(op).__name__, left=l, right=r)
     ext = None
     if isinstance(op, (ast.Mult, ast.Div)):
         if l.ext is not None and r.sign == S_POS and rscalar and r.ext is None:
@@ -403,7 +411,9 @@ def binop(I, fr, op, l, r, node):
         sym = None
     return AV(kind=kind, dtype=dtype, origin=origin, shape=shape, sym=sym, alg=alg, sign=sign, mono=mono,
               const=c, expo=expo, tags=tags_of(l, r), indef=indef_of(l, r), f0=f0, ext=ext,
-              note=pwnote if (pwnote is not None and c is _NOCONST) else None)
+              note=pwnote if (pwnote is not None and c is _NOCONST) else
+              ("integral" if (isinstance(op, (ast.Add, ast.Sub, ast.Mult)) and kind == K_SCALAR and
+                              all(x.dtype in ("int", "bool") or x.note == "integral" for x in (l, r))) else None), rel=rel)
 
 
 def logical_and(a, b):
@@ -866,7 +876,17 @@ def call_builtin(I, fr, name, args, kwargs, node):
         if sym is None:
             sym = LinExpr(fresh_atom("$t"))
         how = "round:toward-zero" if name == "int" else "round:nearest"
-        keep = v.dtype in ("int", "bool")
+        keep = v.dtype in ("int", "bool") or (name == "int" and v.note == "integral")
+        rel = v.rel
+        if not keep:
+            base = v.rel or ((v.sym, 1, "eq", None) if v.sym is not None else None)
+            if base is not None:
+                cmp_ = ("le" if base[2] in ("eq", "le") else None) if (name == "int" and is_nonneg(v.sign)) else None
+                rel = (base[0], base[1], cmp_, "int")
+        if v.note == "integral" and v.sym is not None and name == "int":
+            sym_keep = v.sym
+        else:
+            sym_keep = None
         rt = frozenset() if keep else frozenset([how])
         sign = v.sign if v.sign in (S_ZERO,) else (S_NONNEG if is_nonneg(v.sign) else
                                                    (S_NONPOS if v.sign in (S_NEG, S_NONPOS) else S_ANY))
@@ -874,10 +894,12 @@ def call_builtin(I, fr, name, args, kwargs, node):
             sign = v.sign
         if c is not _NOCONST:
             sign = sign_of_number(c)
+        if sym_keep is not None and c is _NOCONST:
+            sym = sym_keep
         return AV(kind=K_SCALAR, dtype="int", shape=(), sym=sym, const=c, sign=sign,
                   alg=alg1(v, (lambda x: x) if keep else alg_nonlinear),
                   tags=v.tags | rt, indef=v.indef, origin=frozenset(["lit"]),
-                  expo=Exp(c) if c is not _NOCONST else None)
+                  expo=Exp(c) if c is not _NOCONST else None, rel=rel, note="integral")
     if name == "float":
         if a0 is None:
             return const_av(0.0)
@@ -1549,7 +1571,13 @@ def _rounder(direction):
             out = out.replace(const=float(f(c)), sym=LinExpr(int(f(c))), expo=Exp(int(f(c))), sign=sign_of_number(f(c)))
         elif v.shape == ():
             out = out.replace(sym=opaque_sym(direction, v.sym) if v.sym is not None else LinExpr(fresh_atom("$c")))
-        return out
+        if v.shape == ():
+            base = v.rel or ((v.sym, 1, "eq", None) if v.sym is not None else None)
+            if base is not None:
+                cmp_ = {"ceil": "ge" if base[2] in ("eq", "ge") else None, "floor": "le" if base[2] in ("eq", "le") else None,
+                        "nearest": None, "toward-zero": ("le" if base[2] in ("eq", "le") else None) if is_nonneg(v.sign) else None}[direction]
+                out = out.replace(rel=(base[0], base[1], cmp_, "int"))
+        return out.replace(note="integral")
     return h
 
 
